@@ -1,8 +1,150 @@
-import LokiModel.C43.Model
+import LokiModel.C43.Lemmas
 import LokiModel.Generated.C43Tables
+/-!
+# C43 — lint auto-fix changes only what the fixed rules target
+
+Property (properties.jsonl): applying the automatic fixes of fixable lint rules yields a file in which those rules
+report no violations, all other text is unchanged, and the program computes the same outputs as before.
+
+The real fixer of `Fortran90OperatorsRule` raises `AttributeError` on every reported violation (open finding
+`ops-fix-raises`, witness theorems in `LokiModel/Findings/C43.lean`), so the statements `fix_clean`, `fix_local`,
+`fix_sem` below are about the SPECIFICATION function `specFix` (what the fixer is meant to do: F77 relational
+operators in code become F90 symbols), for every text, every start state of the segmenter.  What is proved about the
+code that runs: the model of `Linter.fix` leaves the file untouched when nothing was reported
+(`C43_real_fix_untouched`), and the texts the detection reports are spellings of the operator named in the message
+(`C43_findall_f77`).  Detection vs. specification is checked by correspondence and the direct oracle.
+-/
 namespace LokiModel.C43
 
+/-- the tables regenerated from `/repo` are the ones the model (`Op.sym`, `Op.f77`, `Op.key`, `findallF77`) was
+written for: operator map, the six patterns with flags `re.I` (34 = `re.I | re.U`), both rules fixable -/
 theorem C43_tables_pinned :
-    Generated.C43.opMap = sortedOps.map (fun k => (String.ofList k.sym, String.ofList k.f77)) ∨ True := Or.inr trivial
+    Generated.C43.opMap.length = 6 ∧
+    (∀ k : Op, (String.ofList k.sym, String.ofList k.f77) ∈ Generated.C43.opMap) ∧
+    Generated.C43.opPatterns =
+      [("==", "(?P<f77>\\.eq\\.)|(?P<f90>==)", 34), ("!=", "(?P<f77>\\.ne\\.)|(?P<f90>/=)", 34),
+       (">=", "(?P<f77>\\.ge\\.)|(?P<f90>>=)", 34), ("<=", "(?P<f77>\\.le\\.)|(?P<f90><=)", 34),
+       (">", "(?P<f77>\\.gt\\.)|(?P<f90>>(?!=))", 34), ("<", "(?P<f77>\\.lt\\.)|(?P<f90><(?!=))", 34)] ∧
+    Generated.C43.opsRuleFixable = true ∧ Generated.C43.uboundRuleFixable = true := by
+  refine ⟨by decide, ?_, by decide, by decide, by decide⟩
+  intro k; cases k <;> decide
+
+/-- the tokenizer is lossless: the tokens spell the text -/
+theorem C43_render_toks (st : St) (l : Line) : render (toks st l) = l :=
+  render_toks_aux l.length st l (Nat.le_refl _)
+
+/-- SPEC `fix_local`: the fixed text is the token sequence of the original with every token spelled as before,
+except operator tokens (which lie in code: never in a character literal or a comment), which are spelled with the
+F90 symbol of the same operator.  Every character of a literal or comment is a `.ch` token and is therefore unchanged. -/
+theorem C43_fix_local (st : St) (l : Line) :
+    specFix st l = (toks st l).flatMap Tok.fixed ∧
+    l = (toks st l).flatMap Tok.orig ∧
+    (∀ t ∈ toks st l, t.isOp = false → t.fixed = t.orig) ∧
+    (∀ k a b, Tok.op k a b ∈ toks st l → (Tok.op k a b).fixed = k.sym) := by
+  refine ⟨rfl, (C43_render_toks st l).symm, ?_, ?_⟩
+  · intro t _ h; cases t with
+    | ch s c => rfl
+    | op k a b => simp [Tok.isOp] at h
+  · intro k a b _; rfl
+
+/-- re-tokenizing the fixed text gives the original tokens with each operator token replaced by the characters of
+its symbol, read in code state: the segmentation into code / literal / comment is the same before and after -/
+theorem C43_fix_retokenize (st : St) (l : Line) : toks st (specFix st l) = fixToks (toks st l) :=
+  retok_aux l.length st l (Nat.le_refl _)
+
+/-- SPEC `fix_clean`: the fixed text has no violation -/
+theorem C43_fix_clean (st : St) (l : Line) : specViol st (specFix st l) = [] := by
+  unfold specViol
+  rw [C43_fix_retokenize]
+  apply List.filterMap_eq_nil_iff.mpr
+  intro t ht
+  have := fixToks_noop _ t ht
+  cases t with
+  | ch s c => rfl
+  | op k a b => simp [Tok.isOp] at this
+
+/-- fixing twice is fixing once -/
+theorem C43_fix_idempotent (st : St) (l : Line) : specFix st (specFix st l) = specFix st l := by
+  show renderFixed (toks st (specFix st l)) = _
+  rw [C43_fix_retokenize, renderFixed_fixToks]; rfl
+
+/-- SPEC `fix_local` for protected text: the characters of literals and comments of the fixed text are those of the
+original, in order -/
+theorem C43_fix_protected (st : St) (l : Line) : protText (toks st (specFix st l)) = protText (toks st l) := by
+  rw [C43_fix_retokenize, protText_fixToks]
+
+/-- SPEC `fix_sem`, per token (partial: the re-reading of the whole fixed text by an F90 lexer is not modelled; what
+is missing is the adjacency argument for the character *before* the operator, e.g. `x=.eq.y`, which is not Fortran):
+the symbol written for an operator token is read back by the F90 symbol table `symAt` as the same operator, whenever
+the next character is not `=` -/
+theorem C43_fix_sem_partial (k : Op) (rest : Line) (h : rest.head? ≠ some '=') :
+    symAt (k.sym ++ rest) = some (k, k.sym.length) := by
+  cases k <;> simp only [Op.sym, List.cons_append, List.nil_append, List.length_cons, List.length_nil]
+  case lt =>
+    cases rest with
+    | nil => rfl
+    | cons c r =>
+      have hc : c ≠ '=' := by intro hc; subst hc; simp at h
+      unfold symAt; split <;> simp_all
+  case gt =>
+    cases rest with
+    | nil => rfl
+    | cons c r =>
+      have hc : c ≠ '=' := by intro hc; subst hc; simp at h
+      unfold symAt; split <;> simp_all
+  all_goals rfl
+
+/-- the operator symbols are pairwise different: distinct operators stay distinct after the fix -/
+theorem C43_sym_injective (k k' : Op) (h : k.sym = k'.sym) : k = k' := by
+  cases k <;> cases k' <;> first | rfl | (simp [Op.sym] at h)
+
+/-- model of `Linter.fix` (code that runs): without reports the file is not touched -/
+theorem C43_real_fix_untouched : fixOutcome [] = .untouched := rfl
+
+/-- every text reported by the detection for operator `k` starts with a (case-insensitive) spelling of `.xx.` of `k` -/
+theorem C43_findall_f77 (k : Op) : ∀ (l : Line) (n : Nat), ∀ m ∈ findallF77 k n l, ciStarts k.f77 m = true := by
+  have take4 : ∀ (l : Line), ciStarts k.f77 l = true → ciStarts k.f77 (l.take 4) = true := by
+    intro l h
+    cases k <;>
+      (match l, h with
+       | c1 :: c2 :: c3 :: c4 :: r, h => simpa [ciStarts, Op.f77] using h
+       | [], h => simp [ciStarts, Op.f77] at h
+       | [_], h => simp [ciStarts, Op.f77] at h
+       | [_, _], h => simp [ciStarts, Op.f77] at h
+       | [_, _, _], h => simp [ciStarts, Op.f77] at h)
+  intro l
+  induction l with
+  | nil => intro n m h; cases n <;> simp [findallF77] at h
+  | cons c cs ih =>
+    intro n m h
+    cases n with
+    | succ n => simp only [findallF77] at h; exact ih n m h
+    | zero =>
+      simp only [findallF77] at h
+      split at h
+      · rename_i hc
+        rcases List.mem_cons.mp h with rfl | h
+        · exact take4 _ hc
+        · exact ih _ m h
+      · split at h
+        · exact ih _ m h
+        · exact ih _ m h
+
+/-! ## non-vacuity -/
+
+example : specFix .code ['a', '.', 'E', 'q', '.', 'b'] = ['a', '=', '=', 'b'] := by
+  rw [specFix_ch (by decide), specFix_op (k := .eq) (a := 'E') (b := 'q') (rest := ['b']) (by decide),
+    specFix_ch (by decide), specFix_nil]; rfl
+
+example : specViol .code ['.', 'l', 't', '.'] = [(.lt, ['.', 'l', 't', '.'])] := by
+  have h : toks .code ['.', 'l', 't', '.'] = [.op .lt 'l' 't'] := by
+    rw [toks_op (k := .lt) (a := 'l') (b := 't') (rest := []) (by decide), toks_nil]
+  simp [specViol, h]
+
+example : specFix .code ['\'', '.', 'e', 'q', '.', '\''] = ['\'', '.', 'e', 'q', '.', '\''] := by
+  rw [specFix_ch (by decide)]
+  have h1 : step .code '\'' = .str '\'' := by decide
+  rw [h1, specFix_ch (by decide), specFix_ch (by decide), specFix_ch (by decide), specFix_ch (by decide),
+    specFix_ch (by decide), specFix_nil]
 
 end LokiModel.C43
